@@ -253,6 +253,9 @@ def run(ctx):
 def replay(path):
     import json
     r = json.load(open(path))["replay"]
+    if isinstance(r, dict) and str(r.get("kind", "")).startswith("harvest-"):
+        from harness import harvest_run
+        return harvest_run.replay(r)
     if "cfg" in r:
         cfg = B.Cfg(**r["cfg"])
         f = P.check_no_crash(cfg, [tuple(q) for q in r["queries"]], P.SHAPES.get(r.get("shape", "batch"), (3,)),
